@@ -29,6 +29,11 @@ def module_constants(rel):
         and not isinstance(node.value.value, bool):
       v = node.value.value
       out[node.targets[0].id] = strlit(v) if isinstance(v, str) else VInt(z3.IntVal(v))
+    elif isinstance(node, ast.Assign) and len(node.targets) == 1 and isinstance(node.targets[0], ast.Name) \
+        and isinstance(node.value, (ast.Tuple, ast.Set)) and node.value.elts \
+        and all(isinstance(e, ast.Constant) and isinstance(e.value, str) for e in node.value.elts):
+      from pyvc.state import TupleImm
+      out[node.targets[0].id] = TupleImm([strlit(e.value) for e in node.value.elts])
   return out
 
 
